@@ -461,12 +461,12 @@ class Model:
                     d = {}
                     plain = True
                     for k, v in zip(n.value.keys, n.value.values):
-                        kc = local_alias.get(ast.unparse(k), ast.unparse(k))
+                        kc = local_alias.get(ast.unparse(k), ast.unparse(k)).split('.')[-1]
                         for sk, sv in zip(v.keys, v.values):
                             if not (isinstance(sk, ast.Constant) and isinstance(sv, ast.Attribute)):
                                 plain = False          # e.g. a table of (msb0, lsb0) pairs: handled below
                                 continue
-                            vc = local_alias.get(ast.unparse(sv.value), ast.unparse(sv.value))
+                            vc = local_alias.get(ast.unparse(sv.value), ast.unparse(sv.value)).split('.')[-1]
                             d[(kc, sk.value)] = (vc, sv.attr, sv.lineno)
                     if plain:
                         tables.append((name, d))
@@ -517,13 +517,13 @@ class Model:
             n = pair_tables[0]
             halves = [{}, {}]
             for k, v in zip(n.value.keys, n.value.values):
-                kc = local_alias.get(ast.unparse(k), ast.unparse(k))
+                kc = local_alias.get(ast.unparse(k), ast.unparse(k)).split('.')[-1]
                 for sk, sv in zip(v.keys, v.values):
                     if not isinstance(sk, ast.Constant):
                         raise AnalysisError(f"{n.targets[0].id}: entry {ast.unparse(sk)} is not 'slot': (Class.f, Class.g)")
                     for i in (0, 1):
                         e = sv.elts[i]
-                        vc = local_alias.get(ast.unparse(e.value), ast.unparse(e.value))
+                        vc = local_alias.get(ast.unparse(e.value), ast.unparse(e.value)).split('.')[-1]
                         halves[i][(kc, sk.value)] = (vc, e.attr, e.lineno)
             score = [sum(v[1].endswith('_lsb0') for v in d.values()) - sum(v[1].endswith('_msb0') for v in d.values()) for d in halves]
             if score[0] == score[1]:
